@@ -356,6 +356,15 @@ def run_prop(prop, tier, seed, replay=None):
             if not ok:
                 broken.append("Properties/%s: %d theorems, %d closed; output tail: %s" % (
                     prop.prop_file, len(theorems), closed, text[-400:]))
+            elif tier == "thorough":
+                # the independent checker re-checks the compiled property file and everything it depends on
+                mod = "Indi.Properties." + prop.prop_file[:-2]
+                rc4, out4, err4 = sh(["coqchk", "-silent", "-o", "-Q", "theories", "Indi", mod], 3000, cwd=COQ)
+                txt4 = out4 + err4
+                if rc4 != 0 or "Axioms: <none>" not in txt4:
+                    broken.append("proof obligation: coqchk does not accept %s or reports axioms: %s" % (mod, txt4[-400:]))
+                else:
+                    res.notes.append("coqchk -o %s: accepted, Axioms: <none>" % mod)
 
     model_ok = not any(("does not build" in b) for b in broken)
 
